@@ -157,7 +157,7 @@ reg(
     quick={"shards": 16, "timeout_s": 3000, "n_cases": 12, "n1": 4000,
            "required_classes": ["C13.dist_" + d for d in ["normal", "flip", "categorical", "exponential", "geometric", "multivariate_normal",
                                                           "bernoulli", "binomial", "negative_binomial", "gamma", "dirichlet", "multinomial", "zipf",
-                                                          "tfp:Logistic", "custom:shifted_exponential"]] + ["C13.mode_" + m for m in ["sample_shape", "vmap_keys", "modular_vmap", "gen_site", "kwargs", "vmap_mapped_params", "vmap_mapped_kwargs", "vmap_mapped_params_ss"]] + ["C13.edge_of_domain"]},
+                                                          "tfp:Logistic", "custom:shifted_exponential"]] + ["C13.mode_" + m for m in ["sample_shape", "vmap_keys", "modular_vmap", "gen_site", "kwargs", "vmap_mapped_params", "vmap_mapped_kwargs", "vmap_mapped_params_ss"]] + ["C13.edge_of_domain", "C13.mvn_covariance_scale_small"]},
     thorough={"shards": 16, "timeout_s": 3 * 3600, "n_cases": 96, "n1": 20000, "required_classes": ["C13.dist_normal", "C13.dist_geometric"]},
 )
 
@@ -333,7 +333,8 @@ reg(
 reg(
     "C17",
     "Conjugate cases: normal-normal targets in 1-3 dimensions with generated SPD prior/likelihood covariances and data; "
-    "mean_field_normal_family / full_covariance_normal_family with reparam and reinforce estimators; parameters generic and at "
+    "mean_field_normal_family / full_covariance_normal_family with reparam and reinforce estimators, a two-site family, and user-written "
+    "families of vectorized scalar ADEV sites (one location shared by all coordinates, or one each; a scale per coordinate); parameters generic and at "
     "the exact posterior; oracles are the closed-form evidence, posterior, ELBO and (finite-difference of the closed form) "
     "gradient. Recursion cases: optimize_vi on zero-variance objectives (sampling-free and enumeration-only) against the numpy "
     "recursion params + lr * grad for every iterate, with the objective scaled by 1, 1e4 or 1e-3 (learning rate rescaled inversely, so "
@@ -341,7 +342,7 @@ reg(
     "statistical part); recursion cases with n_iterations >= 2. Distinct = hash of the case.",
     quick={"shards": 16, "timeout_s": 3000, "n_cases": 5, "n1": 4000,
            "required_classes": ["C17.family_mean_field", "C17.family_full_cov", "C17.estimator_reparam", "C17.estimator_reinforce",
-                                "C17.posterior_tightness_checked", "C17.recursion_quadratic", "C17.recursion_enum", "C17.recursion_scale_10000"]},
+                                "C17.posterior_tightness_checked", "C17.recursion_quadratic", "C17.recursion_enum", "C17.recursion_scale_10000", "C17.family_shared_mean"]},
     thorough={"shards": 16, "timeout_s": 4 * 3600, "n_cases": 40, "n1": 16000,
               "required_classes": ["C17.family_mean_field", "C17.family_full_cov", "C17.posterior_tightness_checked", "C17.recursion_quadratic"]},
 )
